@@ -197,12 +197,30 @@ def _sign_syntactic(a, b):
     return None
 
 
+_AUDIT = [0]
+
+
+def _audit(a, b, s):
+    """every 64th syntactic ordering decision is re-decided by z3 under the path condition (must be entailed)"""
+    _AUDIT[0] += 1
+    if _AUDIT[0] % 64:
+        return
+    c = V._CTX[0]
+    if c is None:
+        return
+    claim = (a < b) if s < 0 else ((a == b) if s == 0 else (a > b))
+    r, _ = c._check(z3.Not(claim.t))
+    if r != "unsat":
+        c.stats.errors.append("audit: syntactic ordering decision not entailed (%s): %s vs %s" % (r, a, b))
+
+
 def cmp3(a, b):
     """three-way comparison; symbolic operands: decided syntactically or by forking the path (z3 decides feasibility);
     concrete operands: float comparison with tolerance TOL"""
     if is_sym(a) or is_sym(b):
         s = _sign_syntactic(a, b)
         if s is not None:
+            _audit(a, b, s)
             return s
         if bool(a < b):
             return -1
@@ -464,7 +482,7 @@ def _subsets(n, mode):
     return uniq
 
 
-def set_obligations(A, E, tag, T, P, area_ref, subsets, nonlinear_area=True):
+def set_obligations(A, E, tag, T, P, area_ref, subsets, nonlinear_area=True, chain=False):
     """T: a triangle set of the repository (either representation); P: its triangles as a python list (read from T.triangles)."""
     n = len(P)
     exp_children = canon_set(ref_subdivide(P))
@@ -486,6 +504,9 @@ def set_obligations(A, E, tag, T, P, area_ref, subsets, nonlinear_area=True):
         if nonlinear_area:
             A[tag + "NL.up_sample.area_conserved"] = _safe(lambda: U.area)
             E[tag + "NL.up_sample.area_conserved"] = area_ref
+        if chain and _ok(ut):
+            # second level: the up-sampled set (flipped lattice, shifted offset) is itself a set of the same kind
+            set_obligations(A, E, tag + "up_sample().", U, ut, area_ref, [], nonlinear_area=False)
     NB = _safe(T.neighborhood)
     if not _ok(NB):
         A[tag + "neighborhood"] = NB
@@ -493,6 +514,10 @@ def set_obligations(A, E, tag, T, P, area_ref, subsets, nonlinear_area=True):
     else:
         A[tag + "neighborhood.self_plus_edge_reflections"] = _safe(lambda: canon_set(_tris(NB.triangles)))
         E[tag + "neighborhood.self_plus_edge_reflections"] = exp_nb
+        if chain:
+            nt = _safe(lambda: _tris(NB.triangles))
+            if _ok(nt):
+                set_obligations(A, E, tag + "neighborhood().", NB, nt, shoelace_sum(nt), [], nonlinear_area=False)
     for sub in subsets:
         key = tag + "for_indexes%s" % (sub,)
         r = _safe(lambda: _sel(T, sub))
@@ -528,7 +553,7 @@ def body_coord(inp, subsets="few"):
     A["NL.coord.area_is_area_of_its_triangles"] = _safe(lambda: T.area)
     E["NL.coord.area_is_area_of_its_triangles"] = area_geo
     subs = _subsets(n, subsets)
-    set_obligations(A, E, "coord.", T, P, area_geo, subs)
+    set_obligations(A, E, "coord.", T, P, area_geo, subs, chain=(n <= 2))
     # the vertex-array representation of the same set
     AT = _safe(lambda: T.with_vertices(T.vertices))
     if not _ok(AT) or not isinstance(AT, ArrayTriangles):
@@ -792,8 +817,8 @@ def _run(ctx, body, inputs, kwargs, validate_every=1):
     """hx.run_body with the non-linear (area) obligations decided by a fresh QF_NRA solver per query"""
     ctx.set_inputs(**inputs)
     actual, expected = body(inputs, **kwargs)
-    lin = [k for k in expected if not k.startswith("NL.")]
-    nl = [k for k in expected if k.startswith("NL.")]
+    lin = [k for k in expected if "NL." not in k]
+    nl = [k for k in expected if "NL." in k]
     hx.check_all(ctx, actual, expected, only=lin)
     if nl:
         old = ctx.logic
@@ -802,8 +827,15 @@ def _run(ctx, body, inputs, kwargs, validate_every=1):
             hx.check_all(ctx, actual, expected, only=nl)
         finally:
             ctx.logic = old
+    if sum(1 for c in ctx.stats.candidates if c.known is None) >= ctx.max_candidates:
+        # enough counterexample candidates for this case: they are replayed by the driver; do not explore the remaining paths
+        raise StopCase("case stopped after %d counterexample candidates (remaining paths not explored)" % ctx.max_candidates)
     if validate_every:
         hx.validate(ctx, body, inputs, kwargs, actual, every=validate_every)
+
+
+class StopCase(Exception):
+    pass
 
 
 BODIES = {"case_coord": body_coord, "case_limits": body_limits, "case_array": body_array, "case_mesh": body_array,
